@@ -175,6 +175,17 @@ CLAIMED = {
         note="contention (both sides sending) and T1-T4 / retry are outside the property's premise and absent from the code; after a "
              "framing error (altered length byte) only failure and non-delivery are required",
         design="5/C17"),
+    "C15": dict(
+        technique="token-level TLA+ reference SmlRef (self-consistency checked by TLC on all token strings <= 5/6) + real printer/"
+                  "parser round trip against the TLC-proved E5 bytes + exhaustive token-string enumeration on the real parser with "
+                  "every accepted string and every printed text judged by TLC (SmlJudge)",
+        text="Round trip: every E5-universe item and seeded random items are printed by to_sml(), parsed back by the real parser and "
+             "must re-encode to the TLC-proved bytes; the printed text's structure is validated by TLC against the item's "
+             "structure. Rejection/termination: ALL token strings up to length 5 (thorough 6; 177k / 1.9M) over the 11-token "
+             "alphabet plus single-token edits of valid SML run through the real parser under a watchdog; for every string it "
+             "accepts TLC decides whether a closing bracket is missing or a type name unknown.",
+        note="floats are compared through re-encoded bytes; the harness tokenizer defines the token view of a text",
+        design="5/C15"),
 }
 
 NOT_YET = "check not built yet in this round (specification and harness in progress; see DESIGN.md section 9)"
